@@ -34,6 +34,12 @@ KNOBS = {
     'mi300a': ['', 'cus=1,sas=1', 'cus=2,sas=3,l2=1048576,banks=4,l2lat=3', 'cus=4,sas=2,banks=8,freq=1000'],
 }
 SINGLE_CU = 'cus=1,sas=1'
+# host-concurrent workloads have no reproducible command order; xor is ~2000 kernel launches with a device-to-host copy and a
+# CPU re-computation after each (15 CPU-minutes per timing run)
+SKIP = c01.HOST_CONCURRENT | {'xor'}
+# not race-free between work-groups of one kernel (benign, confluent races on the frontier flags): the executed paths may
+# legitimately depend on timing, only the final memory is compared
+RACY = {'bfs'}
 
 
 def emu_class(arch):
@@ -54,12 +60,12 @@ def programs(ctx, thorough):
     progs = {}
     for c in sets['full']:
         k = c['c']
-        if k['mode'] != 'timing' or k['n'] != 1 or k['umem'] != 0 or c['w'] in c01.HOST_CONCURRENT:
+        if k['mode'] != 'timing' or k['n'] != 1 or k['umem'] != 0 or c['w'] in SKIP:
             continue
         progs[prog_key(c)] = c
     out = sorted(progs.values(), key=prog_key)
-    sampled = [c for c in c01.sampled_cases(ctx, 'all', 120 if thorough else 30)
-               if c['c']['mode'] == 'timing' and c['w'] not in c01.HOST_CONCURRENT]
+    sampled = [c for c in c01.sampled_cases(ctx, 'all', 120 if thorough else 24)
+               if c['c']['mode'] == 'timing' and c['w'] not in SKIP]
     for c in sampled:
         c['c'] = timing_class(c['c']['arch'])
     return out, sampled
@@ -87,14 +93,15 @@ def compare(e, t):
     if badh:
         d['host_arrays'] = badh
     ei, ti = eo['insts'], to['insts']
-    el, tl = ei['launches'], ti['launches']
+    el, tl = ei['launches'] or [], ti['launches'] or []
+    racy = e['case']['w'] in RACY
     if len(el) != len(tl):
         d['launch_count'] = (len(el), len(tl))
-    else:
+    elif not racy:
         badl = [a['ordinal'] for a, b in zip(el, tl) if a['digest'] != b['digest'] or a['wavefronts'] != b['wavefronts']]
         if badl:
             d['inst_sequences'] = badl
-    if ei['issued'] != ti['issued']:
+    if ei['issued'] != ti['issued'] and not racy:
         d['issued'] = (ei['issued'], ti['issued'])
     if ti['issued'] != ti['retired']:
         d['retired'] = (ti['issued'], ti['retired'])
@@ -145,10 +152,13 @@ def run_pairs(ctx, drv, progs, thorough, tag):
         gpu = timing_class(arch)['gpu']
         ks = KNOBS[gpu]
         if thorough:
-            chosen = ks if not c.get('sampled') else [ks[(i + ctx.seed) % len(ks)]]
+            # stock + two knob sets in rotation for the size classes (every knob set meets every workload through its
+            # size classes), one knob set for a sampled program
+            rot = [ks[1 + (i + ctx.seed + j) % (len(ks) - 1)] for j in (0, 1)]
+            chosen = [''] + sorted(set(rot)) if not c.get('sampled') else [ks[(i + ctx.seed) % len(ks)]]
         else:
             # stock platform for every program; one more knob set in rotation
-            chosen = [''] if c.get('sampled') else ['', ks[1 + (i + ctx.seed) % (len(ks) - 1)]]
+            chosen = [''] if c.get('sampled') or (i + ctx.seed) % 3 else ['', ks[1 + (i + ctx.seed) % (len(ks) - 1)]]
         for k in chosen:
             t_cases.append(dict(c, c=timing_class(arch), knobs=k, prog=i))
     ctx.log('%s: %d programs, %d emulation + %d timing runs' % (tag, len(progs), len(emu_cases), len(t_cases)))
@@ -169,8 +179,19 @@ def run_pairs(ctx, drv, progs, thorough, tag):
 
 def signature(ctx, drv, e, t, d, idx):
     c = t['case']
-    sig = {'bench': c['w'], 'platform': c['c']['gpu']}
+    dims = '2d+' if any(l['wg'][1] > 1 or l['wg'][2] > 1 for l in (e['obs']['insts']['launches'] or [])) else '1d'
+    sig = {'bench': c['w'], 'platform': c['c']['gpu'], 'arch': c['c']['arch'], 'workgroup_dims': dims}
     detail = {}
+    memdiff = lambda x: 'buffers' in x or 'host_arrays' in x or 'buffer_layout' in x or 'inst_sequences' in x or 'issued' in x
+    if c.get('knobs') != SINGLE_CU:
+        one = c01.run_case(ctx, drv, 'onecu%d' % idx, dict(c, knobs=SINGLE_CU), extras('t') + ['-knobs', SINGLE_CU], verify=False)
+        if one['obs'] and 'insts' in one['obs']:
+            sig['single_cu_platform'] = 'differs' if memdiff(compare(e, one)) else 'agrees'
+        else:
+            sig['single_cu_platform'] = 'fails'
+        shutil.rmtree(one['dir'], ignore_errors=True)
+    else:
+        sig['single_cu_platform'] = 'differs'
     if 'inst_sequences' in d or 'launch_count' in d or 'issued' in d:
         sig['kind'] = 'executed_instructions_differ'
         if 'inst_sequences' in d:
@@ -183,16 +204,7 @@ def signature(ctx, drv, e, t, d, idx):
         sig['kind'] = 'issued_instruction_never_retired'
     elif 'buffers' in d or 'buffer_layout' in d or 'host_arrays' in d:
         sig['kind'] = 'memory_differs_with_identical_instruction_sequences'
-        # which class of platforms shows it: repeat on the single-CU platform
-        if c.get('knobs') != SINGLE_CU:
-            one = c01.run_case(ctx, drv, 'onecu%d' % idx, dict(c, knobs=SINGLE_CU), extras('t') + ['-knobs', SINGLE_CU], verify=False)
-            if one['obs'] and 'insts' in one['obs']:
-                d1 = compare(e, one)
-                sig['single_cu_platform'] = 'differs' if ('buffers' in d1 or 'host_arrays' in d1 or 'buffer_layout' in d1) else 'agrees'
-            shutil.rmtree(one['dir'], ignore_errors=True)
-        else:
-            sig['single_cu_platform'] = 'differs'
-        sig['kernel_launches'] = 'several' if len(e['obs']['insts']['launches']) > 1 else 'one'
+        sig['kernel_launches'] = 'several' if len(e['obs']['insts']['launches'] or []) > 1 else 'one'
     return sig, detail
 
 
@@ -206,6 +218,8 @@ def run(ctx, selftest=False):
         for c in progs:
             byw.setdefault((c['w'], c['c']['arch']), []).append(c)
         progs = [v[(ctx.seed + i) % len(v)] for i, (k, v) in enumerate(sorted(byw.items()))]
+        # all gcn3 programs, a rotating third of the cdna3 ones
+        progs = [c for i, c in enumerate(progs) if c['c']['arch'] == 'gcn3' or (i + ctx.seed) % 3 == 0]
     progs = progs + sampled
     eres, tres = run_pairs(ctx, drv, progs, thorough, 'p')
 
@@ -230,7 +244,7 @@ def run(ctx, selftest=False):
             f2 = c01.classify_quiet(again, verify=False)
             if f2 is None or f2[0] != kind:
                 raise vlib.Infra('timing failure not reproduced: %s %s' % (name, kind))
-            sig = {'kind': 'timing_run_' + kind, 'bench': c['w'], 'platform': c['c']['gpu'], 'detail': c01.norm_msg(detail)}
+            sig = {'kind': 'timing_run_' + kind, 'bench': c['w'], 'platform': c['c']['gpu'], 'arch': c['c']['arch'], 'detail': c01.norm_msg(detail)}
             if kind == 'crash':
                 sig['where'] = c01.panic_site(again['log'])
             if kind == 'hang':
@@ -263,7 +277,7 @@ def run(ctx, selftest=False):
         ctx.sample({'program': prog_key(ok['case']), 'platform': ok['case']['c']['gpu'], 'knobs': ok['case']['knobs'],
                     'launches': ok['obs']['insts']['launches'][:2], 'issued': ok['obs']['insts']['issued'],
                     'retired': ok['obs']['insts']['retired'], 'buffers': len(ok['obs']['buffers'])})
-    wf = sum(l['wavefronts'] for t in tres if t['obs'] and 'insts' in t['obs'] for l in t['obs']['insts']['launches'])
+    wf = sum(l['wavefronts'] for t in tres if t['obs'] and 'insts' in t['obs'] for l in (t['obs']['insts']['launches'] or []))
     ins = sum(t['obs']['insts']['issued'] for t in tres if t['obs'] and 'insts' in t['obs'])
     ctx.cov.update({'evaluations': len(tres) + len(eres), 'distinct_nontrivial': len(nontrivial), 'pairs_compared': compared,
                     'wavefronts_compared': wf, 'instructions_compared': ins, 'programs': len(progs),
